@@ -1,5 +1,6 @@
 """C03 — well-formed archives from other producers are read faithfully."""
 import binascii, io, os, re, struct, subprocess, zipfile
+import struct
 import genzip
 from genzip import Entry
 from zvlib import Check, run_lines, CACHE
@@ -102,6 +103,13 @@ class C03(Check):
                     Entry(b"plain", b"z", comment=bytes([hb]))]
             data, man = genzip.build(ents, comment=bytes([hb]))
             add_archive(data, man, "genzip-cp437-edge")
+        # local name length + local extra length beyond 65535 in sum (each fits its own field): the reader adds the two
+        # (implementation only: 64 KiB extra fields cost the list-based model seconds per walk)
+        for nl, xl in ((16, 65520), (40000, 30000), (65535, 65535)):
+            ex = struct.pack("<HH", 0xcafe, xl - 4) + bytes(xl - 4)
+            data, man = genzip.build([Entry(b"n" * nl, b"payload behind a long header", extra_local=ex), Entry(b"after", b"next", method=8)])
+            for i in (0, 1):
+                cases.append(("entry %s %d 0 x 4096" % (hexs(data), i), dict(k="entry", i=i, prod="genzip-longheader", man=man, impl_only=True)))
         # unsupported methods: must fail per entry, not per archive
         for m in (1, 6, 9, 14, 95, 98):
             e = Entry(b"odd", b"payload", payload=b"payload"); e.method = m
